@@ -170,3 +170,9 @@ def run(F, R, tier):
             n = len(B.calls_named("KeyKeeperSharedState::get_key"))
             R.ok("C10.R2", "C10.R2:%s:round-trips" % fn["id"], "%s:%s" % (fn["file"], fn["line"]),
                  "%s performs %d actor round-trip (each call of it is its own snapshot)" % (g, n), nontrivial=False)
+
+    # hand-written Clone of Key: id and secret must stay paired through every clone (snapshots are clones)
+    from lib import contracts as _ct
+    for im in _ct.handwritten_impls(F, "clone::Clone", ("azure_proxy_agent",)):
+        if im["self_ty"].endswith("key_keeper::key::Key"):
+            _ct.faithful_clone(F, R, "C10.R2", im)
